@@ -21,6 +21,7 @@ type FuncReport struct {
 	PreludeSyms []string
 	Axioms      []string
 	QueryBytes  int
+	UsedLemmas  []string
 	SolverTimeS float64
 	Preamble    string
 	LightPreamble string
@@ -135,6 +136,10 @@ func (e *Engine) VerifyFunction(fn *ssa.Function) (rep *FuncReport) {
 			r.force = append(r.force, u)
 		}
 		r.instantiate(fr, st, ct, env)
+		r.assumeLemmas(ct)
+		for _, rc := range ct.Reveal {
+			r.reveal(env, "true", rc)
+		}
 	}
 	// invariants of the package's global tables: assumed when this function claims a frame
 	// (its stores and map updates are then proved not to touch them)
@@ -197,6 +202,8 @@ func (e *Engine) VerifyFunction(fn *ssa.Function) (rep *FuncReport) {
 		for _, en := range ct.Ensures {
 			t := r.specBool(env, en.Expr, en.Text)
 			r.oblige(name, "ensures", outReach, t, en.Text, fn.Pos())
+			// later postconditions may build on earlier ones (each is proved on its own)
+			r.assume(outReach, t)
 		}
 	}
 	if fn.Name() == "init" && outReach != "false" {
@@ -271,6 +278,7 @@ var sentinelTok = regexp.MustCompile(`g_[A-Za-z0-9_]+`)
 
 func (e *Engine) finish(r *run, rep *FuncReport) {
 	rep.Obligations = r.obls
+	rep.UsedLemmas = r.usedLemmas
 	renumber(r.obls)
 	for a := range r.assumed {
 		rep.Assumed = append(rep.Assumed, a)
@@ -424,6 +432,10 @@ func (r *run) instantiate(fr *frame, st *State, ct *Contract, env *specEnv) {
 		if ic.Expr.Op != "call" {
 			r.unsupported("instantiate expects a call: %s", ic.Text)
 		}
+		if r.eng.Contracts["lemma:"+ic.Expr.Val] != nil {
+			r.lemmaInstance(env, guard, Clause{Text: ic.Text, Expr: ic.Expr})
+			continue
+		}
 		name := ic.Expr.Val
 		var target *Contract
 		var callee *ssa.Function
@@ -457,5 +469,37 @@ func (r *run) instantiate(fr *frame, st *State, ct *Contract, env *specEnv) {
 			args = append(args, Val{Term: v.Term, Sort: v.Sort, Type: t})
 		}
 		r.applyContract(fr, st, target, callee.Signature, callee, args, guard, fr.fn.Pos(), callee.String())
+	}
+}
+
+// assumeLemmas assumes the universal closure of lemmas that are proved separately (the check
+// command adds every lemma used to its job list).
+func (r *run) assumeLemmas(ct *Contract) {
+	for _, ln := range ct.UsesLemmas {
+		lem := r.eng.Contracts["lemma:"+ln]
+		if lem == nil {
+			r.unsupported("unknown lemma %q", ln)
+		}
+		lem.Used = true
+		env := r.newEnv(nil, r.entry)
+		if sp := r.eng.SSAPkgs[repoMod+"/fhirpath/system"]; sp != nil {
+			env.pkg = sp.Pkg
+		}
+		var bs []string
+		for _, b := range lem.Binders {
+			so, t := env.sortOfName(b.Type)
+			env.bound[b.Name] = SVal{Term: b.Name + "!l", Sort: so, Type: t}
+			bs = append(bs, fmt.Sprintf("(%s!l %s)", b.Name, so))
+		}
+		var hyp, concl []string
+		for _, rq := range lem.Requires {
+			hyp = append(hyp, r.specBool(env, rq.Expr, rq.Text))
+		}
+		for _, en := range lem.Ensures {
+			concl = append(concl, r.specBool(env, en.Expr, en.Text))
+		}
+		r.emit(fmt.Sprintf("(assert (forall (%s) (=> %s %s)))", strings.Join(bs, " "), and(hyp...), and(concl...)))
+		r.assumed["lemma (proved separately): "+ln] = true
+		r.usedLemmas = append(r.usedLemmas, ln)
 	}
 }
